@@ -3,6 +3,7 @@ package props
 
 import (
 	"fmt"
+	"reflect"
 	"sort"
 	"strings"
 
@@ -10,6 +11,7 @@ import (
 	"github.com/Oudwins/zog/parsers/zjson"
 
 	"zogverif/internal/core"
+	"zogverif/internal/gen"
 	"zogverif/internal/obs"
 	"zogverif/internal/ref"
 	"zogverif/internal/rng"
@@ -113,4 +115,92 @@ func ambientHistory(r *rng.Rand) {
 			_ = z.Issues.SanitizeMapAndCollect(m)
 		}
 	}
+}
+
+// warmAlt uses the schema object once with a second, equally valid destination type (same fields in reverse order)
+// before the observed call. A schema must not remember anything about the destination types it was used with.
+func warmAlt(r *rng.Rand, b *spec.Built) {
+	n := b.Node
+	if n.Kind == spec.Pre || n.Kind == spec.Custom || !n.HasStruct() {
+		return
+	}
+	defer func() { _ = recover() }()
+	data := gen.ParseInput(r, n, gen.InOpts{ValidPct: 100})
+	run.ParseInto(b, data, reflect.New(n.AltGoType()))
+	if r.Bool() {
+		val := gen.ValueTree(r, n, gen.InOpts{ValidPct: 100}, true)
+		p := reflect.New(n.AltGoType())
+		p.Elem().Set(obs.Make(n.AltGoType(), val))
+		run.ValidatePtr(b, p)
+	}
+}
+
+// Two distinct Go types that print the same (reflect.Type.String() == "props.Payload"): function-local types with one name.
+func payloadTypeA() reflect.Type {
+	type Payload struct {
+		Name string `json:"first_name"`
+		Age  int
+		Note string
+	}
+	return reflect.TypeOf(Payload{})
+}
+
+func payloadTypeB() reflect.Type {
+	type Payload struct {
+		Note string
+		Age  int    `json:"years"`
+		Name string `json:"name"`
+	}
+	return reflect.TypeOf(Payload{})
+}
+
+// sameNamedTypesCheck: one schema object used with two destination types that share their printed name but differ in
+// layout and tags must behave, for each type, like a fresh schema object. Returns a description of the first divergence.
+func sameNamedTypesCheck(r *rng.Rand) (string, map[string]any) {
+	mk := func() *z.StructSchema {
+		return z.Struct(z.Schema{"name": z.String().Required().Min(2), "age": z.Int().GT(0), "note": z.String()})
+	}
+	shared := mk()
+	types := []reflect.Type{payloadTypeA(), payloadTypeB()}
+	if r.Bool() {
+		types[0], types[1] = types[1], types[0]
+	}
+	docs := map[reflect.Type][]string{
+		payloadTypeA(): {`{"first_name":"Grace","Age":41,"Note":"n"}`, `{"first_name":"G"}`, `{"name":"wrong key","years":3}`},
+		payloadTypeB(): {`{"name":"Ada","years":36,"Note":"n"}`, `{"name":"A","years":0}`, `{"first_name":"wrong key","Age":3}`},
+	}
+	render := func(s *z.StructSchema, t reflect.Type, doc string, viaJSON bool) string {
+		dp := reflect.New(t)
+		var m z.ZogIssueMap
+		func() {
+			defer func() {
+				if rec := recover(); rec != nil {
+					m = z.ZogIssueMap{"PANIC": {&z.ZogIssue{Message: fmt.Sprint(rec)}}}
+				}
+			}()
+			if viaJSON {
+				m = s.Parse(zjson.Decode(strings.NewReader(doc)), dp.Interface())
+			} else {
+				m = s.Parse(map[string]any{"name": "Map Name", "age": 5, "note": "from map"}, dp.Interface())
+			}
+		}()
+		all, _ := obs.CanonMap(m)
+		return obs.Multiset(all, func(ci obs.CI) string { return ci.Path + "|" + ci.Code + "|" + ci.Message }) + " dest=" + obs.Render(obs.NormValue(dp.Elem()))
+	}
+	for round := 0; round < 2; round++ {
+		for _, t := range types {
+			for _, doc := range docs[t] {
+				for _, viaJSON := range []bool{true, false} {
+					got := render(shared, t, doc, viaJSON)
+					want := render(mk(), t, doc, viaJSON)
+					if got != want {
+						return "schema-remembers-an-earlier-destination-type", map[string]any{"schema": `z.Struct{"name": String().Required().Min(2), "age": Int().GT(0), "note": String()}`,
+							"destination_types": "two function-local types both printed as props.Payload, with different field order and json tags", "document": doc, "through_json": viaJSON,
+							"shared_schema_object": got, "fresh_schema_object": want}
+					}
+				}
+			}
+		}
+	}
+	return "", nil
 }
